@@ -28,7 +28,7 @@ from antlr4 import *
 from .aggregator import DocumentationAggregator
 from cminx import Settings
 from .documentation_types import DocumentationType, ModuleDocumentation
-from .parser import ParserErrorListener
+from .parser import ParserErrorListener, LexerErrorListener
 from .parser.CMakeLexer import CMakeLexer
 from .parser.CMakeParser import CMakeParser
 from .rstwriter import RSTWriter, Directive
@@ -79,6 +79,10 @@ class Documenter(object):
         # Convert those strings into tokens and build a stream from those
         self.lexer: CMakeLexer = CMakeLexer(self.input_stream)
         """The lexer used to generate the token stream."""
+
+        # Characters the lexer cannot tokenize must not be skipped silently
+        self.lexer.removeErrorListeners()
+        self.lexer.addErrorListener(LexerErrorListener())
 
         self.stream: TokenStream = CommonTokenStream(self.lexer)
         """The stream of tokens from the lexer, should be passed to the parser."""
